@@ -1,6 +1,9 @@
 import Blue.Proofs.Wire
 import Blue.Proofs.Proto
 import Blue.Proofs.ProtoMsg
+import Blue.Proofs.Varint
+import Blue.Proofs.ProtoSz
+import Blue.Proofs.ProtoUnknown
 import Blue.Proofs.EntryCodec
 import Blue.Proofs.ConstsTieProto
 /-! # Property C15 — the protobuf codec round-trips all values and decodes arbitrary bytes safely
@@ -12,7 +15,10 @@ a ten-byte varint, prototk `Tag` / `FieldNumber` / `WireType`, `FieldIterator::n
 cut at the canonical varint size), `Blue/Model/Proto.lean` (flat schema interpreter, the design-phase
 theorem) and `Blue/Model/ProtoMsg.lean` (the full schema language: every `field_types::*`, plain /
 `Option` / `Vec` fields, nested structs, enums with unit / tuple / named variants, `Result`, with
-the error class of every failing decode).  The correspondence check runs the real
+the error class of every failing decode), `Blue/Model/Varint.lean` (the TWO varint decoders of the
+code — `unpack_slow` and the unrolled dispatch over `unpack_size::<SZ>` — operation for operation
+on checked `u64` arithmetic, with the ten-byte boundary that selects between them) and
+`Blue/Model/ProtoSz.lean` (`pack_sz` as the sum the code adds up, not as the length of the packing).  The correspondence check runs the real
 `#[derive(Message)]` code of a family of 17 types against `ProtoMsg` byte for byte, and the flat
 interpreter side by side on the flat members of the family.
 
@@ -182,6 +188,163 @@ theorem nested_enum_trailing_bytes_is_an_error :
     unpackMsg 3 (.enum [.tuple 10 (.msg (.enum [.unit 1] (.variant 0 (.struct []))))] (.variant 0 (.struct [])))
       [0x52, 0x03, 0x0a, 0x00, 0x00] = .error .wrongLength := by rfl
 
+/-! ## the two varint decoders of the code (fast path = slow path) -/
+
+section Varint
+open Blue.Varint
+
+/-- the shape of `<v64 as Unpackable>::unpack` the model uses — slow decoder below ten bytes, its
+    cap `min(len, 10)`, the ten (index, size) arms, the `< 128` thresholds — and the literals of
+    `unpack_slow` / `unpack_size` are those of the source -/
+theorem varint_decoders_from_source :
+    Blue.ConstsTie.varintSourceShape = shape
+    ∧ Blue.Generated.varintSlowCap.length = 2
+    ∧ Blue.Generated.varintFastArmIndices.length = Blue.Generated.varintFastArmSizes.length
+    ∧ Blue.Generated.varintFastArmThresholds = Blue.Generated.varintFastArmIndices.map (fun _ => CONT)
+    ∧ Blue.Generated.varintCodeLiterals = [CONT, LOW, STEP, CONT, LOW, STEP, 0, CONT, STEP] :=
+  ⟨Blue.ConstsTie.varint_shape.1, Blue.ConstsTie.varint_shape.2.1, Blue.ConstsTie.varint_shape.2.2.1,
+   Blue.ConstsTie.varint_shape.2.2.2, Blue.ConstsTie.varint_code_literals⟩
+
+/-- `varint_unpack_is_decVarint`, general boundary: whatever length `m ≥ 10` the code sends to the
+    slow decoder, `unpack` never panics and computes `decVarint`; the overflow error carries
+    `min(len, 10)` from the slow decoder and `len` from the dispatch.  The hypothesis is what the
+    `buf[9]` of the last arm needs; the source's boundary discharges it (`10 ≤ varintFastMinLen`,
+    the example below), the seeded `buf.len() < 9` does not. -/
+theorem varint_unpack_any_boundary (m : Nat) (hm : 10 ≤ m) (bs : List Nat) (hb : Bytes bs) :
+    unpackWith ⟨m, (10, 10), arms10⟩ bs
+      = ofDec (if bs.length < m then min bs.length 10 else bs.length) (decVarint bs) :=
+  unpackWith_eq_decVarint m hm bs hb
+
+/-- `varint_unpack_is_decVarint`: `v64::unpack` with the shape read from the source — both
+    decoders, selected at ten bytes — is the model decoder `decVarint` on every buffer, returns the
+    buffer length in its overflow error, and never panics -/
+theorem varint_unpack_is_decVarint (bs : List Nat) (hb : Bytes bs) :
+    unpackWith Blue.ConstsTie.varintSourceShape bs = ofDec bs.length (decVarint bs)
+    ∧ unpackWith Blue.ConstsTie.varintSourceShape bs ≠ .panic := by
+  rw [Blue.ConstsTie.varint_shape.1]
+  exact ⟨unpack_eq_decVarint bs hb, unpack_never_panics bs hb⟩
+
+/-- `varint_fast_eq_slow`: on every buffer of at least ten bytes — where the code takes the
+    unrolled dispatch — `unpack_slow` as written returns the same value and the same remainder and
+    fails on the same buffers; both are `decVarint`, neither panics; the two errors differ in
+    their `bytes` field only (`len` against `10`) -/
+theorem varint_fast_eq_slow (bs : List Nat) (hb : Bytes bs) (hlen : 10 ≤ bs.length) :
+    (∀ v rest, dispatch arms10 bs = .ok v rest ↔ unpackSlow (10, 10) bs = .ok v rest)
+    ∧ ((∃ n, dispatch arms10 bs = .err n) ↔ (∃ n, unpackSlow (10, 10) bs = .err n))
+    ∧ dispatch arms10 bs ≠ .panic ∧ unpackSlow (10, 10) bs ≠ .panic
+    ∧ dispatch arms10 bs = ofDec bs.length (decVarint bs)
+    ∧ unpackSlow (10, 10) bs = ofDec 10 (decVarint bs) := by
+  obtain ⟨h1, h2⟩ := fast_eq_slow bs hb hlen
+  refine ⟨?_, ?_, ?_, ?_, h1, h2⟩
+  · intro v rest; rw [h1, h2]; exact ofDec_ok_iff _ _ _ _ _
+  · rw [h1, h2]; cases decVarint bs <;> simp [ofDec]
+  · rw [h1]; exact ofDec_ne_panic _ _
+  · rw [h2]; exact ofDec_ne_panic _ _
+
+/-- `unpack_slow` as written is `decVarint` on buffers of every length (below ten bytes this is
+    the code path taken) -/
+theorem varint_slow_is_decVarint (bs : List Nat) (hb : Bytes bs) :
+    unpackSlow (10, 10) bs = ofDec (min bs.length 10) (decVarint bs) := unpackSlow_eq_decVarint bs hb
+
+/-- `pack` then `unpack` (through whichever decoder the length selects) returns every `u64` and
+    what followed it -/
+theorem varint_pack_unpack (x : Nat) (hx : x < U64) (rest : List Nat) (hr : Bytes rest) :
+    unpack (encVarint x ++ rest) = .ok x rest := unpack_pack x hx rest hr
+
+/-- `v64::pack` as written (each byte stored without its continuation bit, `|= 128` when the next
+    byte turns out to be needed) on a buffer of `pack_sz` bytes of any content stays within the
+    buffer and writes the model's `encVarint`; unpacking those bytes returns the value -/
+theorem varint_pack_as_written (x : Nat) (hx : x < U64) (out : List Nat) (hl : out.length = varintSz x)
+    (rest : List Nat) (hr : Bytes rest) :
+    pack x out = some (encVarint x) ∧ unpack (encVarint x ++ rest) = .ok x rest :=
+  ⟨pack_eq_encVarint x out (by rw [hl, varintSz_eq x hx]), unpack_pack x hx rest hr⟩
+
+/-- the literals of `v64::pack_sz` and `v64::pack` are those of the source -/
+theorem varint_encoder_from_source :
+    Blue.Generated.varintPackLiterals = [1, STEP, STEP, 1, LOW, STEP, 1, CONT, LOW, 1, STEP] ∧ 2 ^ STEP = 128 :=
+  Blue.ConstsTie.varint_pack_literals
+
+/-- the boundary is needed: were the slow decoder taken only below `m < 10` bytes, a buffer of `m`
+    continuation bytes would index out of range in the dispatch (`m = 9` is the seeded change) -/
+theorem varint_short_boundary_panics (m : Nat) (hm : m < 10) :
+    unpackWith ⟨m, (10, 10), arms10⟩ (List.replicate m 128) = .panic := short_boundary_panics m hm
+
+end Varint
+
+/-! ## `pack_sz` -/
+
+/-- `pack_sz_is_length`: for every message type of the schema language and every value of it, the
+    size the `pack_sz` implementations add up (tag size + payload size, length prefixes from the
+    inner `pack_sz`) is the number of bytes `pack` writes -/
+theorem pack_sz_is_length (f : Nat) (m : Msg) (v : Val) (h : WfMsg f m v) :
+    packSzMsg f m v = (packMsg f m v).length := packSz_eq_length f m v h
+
+/-- the same for one value of a field type, and for a tag -/
+theorem scalar_and_tag_pack_sz (s : Scalar) (v : Val) (h : WfScalar s v) (t : Tag) (ht : validFieldNumber t.num = true) :
+    szScalar s v = (encScalar s v).length ∧ szTag t = (encTag t).length :=
+  ⟨szScalar_eq s v h, szTag_eq t ht⟩
+
+/-! ## unknown fields at any field boundary of any buffer -/
+
+/-- `unknown_fields_skipped_anywhere`: `pre` is ANY byte string the field iterator reads to its end
+    as complete fields (their payloads may be malformed, non-canonical or unknown themselves),
+    `ub` any byte string it reads as exactly one field whose (number, wire type) the struct has no
+    arm for, `suf` ANY byte string (truncated, hostile).  The struct unpacks `pre ++ ub ++ suf`
+    to what it unpacks `pre ++ suf` to — value or error. -/
+theorem unknown_fields_skipped_anywhere (f : Nat) (fs : List Field) (pre ub suf : List Nat) (t : Tag) (sl : List Nat)
+    (hpre : Blue.Varint.Bytes pre) (hub : Blue.Varint.Bytes ub)
+    (hclean : (fieldsE (pre.length + 1) pre).2 = none)
+    (hu : fieldStepE ub = .ok ((t, sl), [])) (hunk : Unknown fs t) :
+    unpackMsg (f + 1) (.struct fs) (pre ++ ub ++ suf) = unpackMsg (f + 1) (.struct fs) (pre ++ suf) :=
+  unpackMsg_unknown_anywhere f fs pre ub suf t sl hpre hub hclean hu hunk
+
+/-- the fact behind it: the field iterator reads a field from the bytes of the field alone -/
+theorem field_read_is_local (bs : List Nat) (hb : Blue.Varint.Bytes bs) (fld : Tag × List Nat) (rest x : List Nat)
+    (h : fieldStepE bs = .ok (fld, rest)) : fieldStepE (bs ++ x) = .ok (fld, rest ++ x) :=
+  fieldStepE_append bs hb fld rest x h
+
+/-- `unknown_fields_skipped_nested`: the same inside the frame of a nested struct that sits at any
+    field boundary of an outer struct, with anything after it -/
+theorem unknown_fields_skipped_nested (f : Nat) (fs : List Field) (n : Nat) (opre osuf pre ub suf : List Nat)
+    (t : Tag) (sl : List Nat)
+    (hn : validFieldNumber n = true) (hopre : Blue.Varint.Bytes opre)
+    (hoclean : (fieldsE (opre.length + 1) opre).2 = none)
+    (hl : (pre ++ ub ++ suf).length < U64)
+    (hnested : ∀ g ∈ fs, g.num = n ∧ g.ty.wt = .lengthDelimited → ∃ gs, g.ty = .msg (.struct gs) ∧ Unknown gs t)
+    (hpre : Blue.Varint.Bytes pre) (hub : Blue.Varint.Bytes ub) (hclean : (fieldsE (pre.length + 1) pre).2 = none)
+    (hu : fieldStepE ub = .ok ((t, sl), [])) :
+    unpackMsg (f + 2) (.struct fs) (opre ++ (encTag ⟨n, .lengthDelimited⟩ ++ encBytes (pre ++ ub ++ suf) ++ osuf))
+      = unpackMsg (f + 2) (.struct fs) (opre ++ (encTag ⟨n, .lengthDelimited⟩ ++ encBytes (pre ++ suf) ++ osuf)) :=
+  unpackMsg_unknown_nested f fs n opre osuf pre ub suf t sl hn hopre hoclean hl hnested hpre hub hclean hu
+
+/-- any depth: two buffers that differ only inside the frame of one length-delimited field (at a
+    field boundary of the outer struct) unpack alike whenever every arm taking that field unpacks
+    the two frames alike — so the previous theorem composes through any number of nestings -/
+theorem nested_frame_congruence (f : Nat) (fs : List Field) (n : Nat) (opre inner1 inner2 osuf : List Nat)
+    (hn : validFieldNumber n = true) (hopre : Blue.Varint.Bytes opre)
+    (hclean : (fieldsE (opre.length + 1) opre).2 = none)
+    (hl1 : inner1.length < U64) (hl2 : inner2.length < U64)
+    (hinner : ∀ g ∈ fs, g.num = n ∧ g.ty.wt = .lengthDelimited →
+      decTyWith (unpackMsg (f + 1)) g.ty (encBytes inner1) = decTyWith (unpackMsg (f + 1)) g.ty (encBytes inner2)) :
+    unpackMsg (f + 2) (.struct fs) (opre ++ (encTag ⟨n, .lengthDelimited⟩ ++ encBytes inner1 ++ osuf))
+      = unpackMsg (f + 2) (.struct fs) (opre ++ (encTag ⟨n, .lengthDelimited⟩ ++ encBytes inner2 ++ osuf)) :=
+  nested_frame_congr f fs n opre inner1 inner2 osuf hn hopre hclean hl1 hl2 hinner
+
+/-- `unknown_fields_skipped_named_variant`: the same in the body of a named enum variant (it skips
+    unknown fields by the same loop — `namedVariantStrict = false`, tied to the source in
+    `decoder_switches_from_source`): an unknown field at any field boundary of any body,
+    anything after the enum's field -/
+theorem unknown_fields_skipped_named_variant (f : Nat) (vars : List Variant) (d : Val) (n i n' : Nat) (fs : List Field)
+    (pre ub suf rest : List Nat) (t : Tag) (sl : List Nat)
+    (hn : validFieldNumber n = true)
+    (hfind : findVariant vars ⟨n, .lengthDelimited⟩ 0 = some (i, .named n' fs))
+    (hl : (pre ++ ub ++ suf).length < U64)
+    (hpre : Blue.Varint.Bytes pre) (hub : Blue.Varint.Bytes ub) (hclean : (fieldsE (pre.length + 1) pre).2 = none)
+    (hu : fieldStepE ub = .ok ((t, sl), [])) (hunk : Unknown fs t) :
+    unpackMsg (f + 1) (.enum vars d) (encTag ⟨n, .lengthDelimited⟩ ++ encBytes (pre ++ ub ++ suf) ++ rest)
+      = unpackMsg (f + 1) (.enum vars d) (encTag ⟨n, .lengthDelimited⟩ ++ encBytes (pre ++ suf) ++ rest) :=
+  unpackMsg_unknown_named f vars d n i n' fs pre ub suf rest t sl hn hfind hl hpre hub hclean hu hunk
+
 /-! non-vacuity: concrete non-trivial values meet the hypotheses -/
 example : (300 : Nat) < U64 := by decide
 example : WfScalar .sint32 (.int (-2147483648)) := by simp [WfScalar, P31]
@@ -205,6 +368,37 @@ example : Unknown [.mk 1 .one (.scalar .uint64)] ⟨1, .lengthDelimited⟩ := by
   intro f hf; simp at hf; subst hf; simp [Field.num, Field.ty, Ty.wt, Scalar.wt]
 example : decVarint [0x80, 0x00, 0x07] = some (0, [0x07]) ∧ (encVarint 0).length + [0x07].length < [0x80, 0x00, 0x07].length := by
   refine ⟨by decide, ?_⟩; rw [encVarint_lt (by omega)]; decide
+
+/-- the boundary hypothesis of `varint_unpack_any_boundary` is discharged by the source's literal -/
+example : 10 ≤ Blue.Generated.varintFastMinLen := Blue.ConstsTie.varint_fast_min_len
+example : [0xaa, 0xbb].length = varintSz 300 := by decide
+/-- a ten-byte varint with the dropped bits of the tenth byte, followed by a byte: fast path -/
+example : Blue.Varint.Bytes [0xff, 0xff, 0xff, 0xff, 0xff, 0xff, 0xff, 0xff, 0xff, 0x7f, 0x55]
+    ∧ 10 ≤ [0xff, 0xff, 0xff, 0xff, 0xff, 0xff, 0xff, 0xff, 0xff, 0x7f, 0x55].length := by
+  refine ⟨?_, by decide⟩
+  intro b hb; simp at hb; omega
+example : Blue.Varint.dispatch Blue.Varint.arms10 [0xff, 0xff, 0xff, 0xff, 0xff, 0xff, 0xff, 0xff, 0xff, 0x7f, 0x55]
+    = .ok 18446744073709551615 [0x55] := by decide
+/-- a non-canonical, malformed-payload prefix is still a sequence of complete fields: field 1
+    (varint) with the non-minimal value `80 00`, then an unknown fixed32 field 9 — and an unknown
+    length-delimited field 7 holding two bytes can be inserted after it -/
+example : (fieldsE ([0x08, 0x80, 0x00, 0x4d, 1, 2, 3, 4].length + 1) [0x08, 0x80, 0x00, 0x4d, 1, 2, 3, 4]).2 = none
+    ∧ fieldStepE [0x3a, 0x02, 0xaa, 0xbb] = .ok ((⟨7, .lengthDelimited⟩, [0x02, 0xaa, 0xbb]), [])
+    ∧ Unknown [.mk 1 .one (.scalar .uint64)] ⟨7, .lengthDelimited⟩ := by
+  refine ⟨by decide, ?_, ?_⟩
+  · simp [fieldStepE, decTagE, decVarint, decVarintAux, validFieldNumber, WT.ofBits, U32MAX, U64, encVarint_lt]
+  · intro f hf; simp at hf; subst hf; simp [Field.num]
+/-- the hypothesis of the nested theorem: field 4 is a nested struct that does not know field 7 -/
+example : ∀ g ∈ [Field.mk 1 .one (.scalar .uint64), .mk 4 .one (.msg (.struct [.mk 1 .one (.scalar .uint64)]))],
+    g.num = 4 ∧ g.ty.wt = .lengthDelimited → ∃ gs, g.ty = .msg (.struct gs) ∧ Unknown gs ⟨7, .lengthDelimited⟩ := by
+  intro g hg hc
+  simp at hg
+  rcases hg with rfl | rfl
+  · simp [Field.num] at hc
+  · refine ⟨_, rfl, ?_⟩
+    intro f hf; simp at hf; subst hf; simp [Field.num]
+example : findVariant [.unit 1, .named 2 [.mk 1 .one (.scalar .uint64)]] ⟨2, .lengthDelimited⟩ 0
+    = some (1, .named 2 [.mk 1 .one (.scalar .uint64)]) := by simp [findVariant, Variant.num, Variant.wt]
 
 end Blue.Props.C15
 
@@ -230,3 +424,19 @@ end Blue.Props.C15
 #print axioms Blue.Props.C15.noncanonical_field_rejected
 #print axioms Blue.Props.C15.decode_total
 #print axioms Blue.Props.C15.nested_enum_trailing_bytes_is_an_error
+#print axioms Blue.Props.C15.varint_decoders_from_source
+#print axioms Blue.Props.C15.varint_unpack_any_boundary
+#print axioms Blue.Props.C15.varint_unpack_is_decVarint
+#print axioms Blue.Props.C15.varint_fast_eq_slow
+#print axioms Blue.Props.C15.varint_slow_is_decVarint
+#print axioms Blue.Props.C15.varint_pack_unpack
+#print axioms Blue.Props.C15.varint_short_boundary_panics
+#print axioms Blue.Props.C15.pack_sz_is_length
+#print axioms Blue.Props.C15.scalar_and_tag_pack_sz
+#print axioms Blue.Props.C15.unknown_fields_skipped_anywhere
+#print axioms Blue.Props.C15.field_read_is_local
+#print axioms Blue.Props.C15.unknown_fields_skipped_nested
+#print axioms Blue.Props.C15.nested_frame_congruence
+#print axioms Blue.Props.C15.unknown_fields_skipped_named_variant
+#print axioms Blue.Props.C15.varint_pack_as_written
+#print axioms Blue.Props.C15.varint_encoder_from_source
